@@ -1,3 +1,6 @@
 pub mod c11;
 pub mod c09;
 pub mod c01;
+pub mod c02;
+pub mod c03;
+pub mod pad;
